@@ -208,7 +208,7 @@ def _hoomd(rec, obj, kind, sig, L):
             rec.close("hoomd_moment_inertia", np.asarray(h["moment_inertia"], dtype=float), m["inertia_centroidal"],
                       1e-9 * m["volume"] * L * L + 1e-9 * np.abs(m["inertia_centroidal"]).max(), sig)
         else:
-            rec.close("hoomd_volume", h["volume"], get(obj, "volume"), 1e-12 * abs(float(obj.volume)), sig)
+            rec.close("hoomd_volume", h["volume"], get(obj, "volume"), 1e-9 * abs(float(obj.volume)), sig)
     elif kind in ("Polygon", "ConvexPolygon", "ConvexSpheropolygon"):
         HV = np.asarray(h["vertices"], dtype=float)
         xy = HV[:, :2]
@@ -217,7 +217,7 @@ def _hoomd(rec, obj, kind, sig, L):
         rec.close("hoomd_vertices_centred", [cx, cy], [0.0, 0.0], tol, s2, centroid_of_returned_vertices=[cx, cy])
         if kind == "ConvexSpheropolygon":
             rec.close("hoomd_sweep_radius", h["sweep_radius"], obj.radius, 0.0, sig)
-            rec.close("hoomd_area", h["area"], get(obj, "area"), 1e-12 * float(obj.area), sig)
+            rec.close("hoomd_area", h["area"], get(obj, "area"), 1e-9 * float(obj.area), sig)
         else:
             rec.check(HV.shape[1] == 2, "hoomd_polygon_vertices_2d", sig)
             rec.close("hoomd_sweep_radius", h["sweep_radius"], 0.0, 0.0, sig)
@@ -397,9 +397,9 @@ def fuzz_targets():
 
 def clauses():
     return [
-        Clause("gsd_fuzz", _gsd_fuzz_case(), _gsd_fuzz, quick=1500, thorough=30000, rule="type string x key subset x dimensions for from_gsd_type_shapes",
+        Clause("gsd_fuzz", _gsd_fuzz_case(), _gsd_fuzz, quick=4500, thorough=30000, rule="type string x key subset x dimensions for from_gsd_type_shapes",
                floors={"unknown_or_missing_type": 0.2, "complete_spec": 0.05}),
-        Clause("roundtrips", _case(), _run, quick=1200, thorough=25000, rule="gsd / repr / to_json / to_hoomd of generated shapes",
+        Clause("roundtrips", _case(), _run, quick=3600, thorough=25000, rule="gsd / repr / to_json / to_hoomd of generated shapes",
                floors={"off_origin": 0.05, "zero_radius": 0.01, "hoomd": 0.4}),
-        Clause("gsd_specs", _spec_case(), _spec, quick=400, thorough=6000, rule="hand-built GSD dicts incl. malformed ones", floors={}),
+        Clause("gsd_specs", _spec_case(), _spec, quick=1200, thorough=6000, rule="hand-built GSD dicts incl. malformed ones", floors={}),
     ]
